@@ -37,7 +37,9 @@ CLAIMS = {
         technique="Lean 4 theorems (early-exit soundness) + brute-force optimum oracle + model-equals-recurrence correspondence",
         text="Partial proof. The model of the optimal matcher is the documented recurrence evaluated naively, so 'no worse than the recurrence' is the correspondence (implementation = "
              "model on every case). Theorems: no bonus exceeds the value the early exit waits for (all presets), a candidate scan keeps the leftmost maximum and stops only at the "
-             "maximum. Upper bound and the one-character optimum are checked against a brute force over all alignments for small inputs; the lower bound is also an oracle of its own: "
+             "maximum; the optimal matcher's recurrence never scores above the maximum over all alignments (C04_upper_bound: its value is the scheme's value of an alignment the "
+             "brute-force specification enumerates; every haystack, needle, window, prefix preference off). For a one-character needle the ASCII matcher returns exactly the maximum over all alignments, at the leftmost best-placed occurrence "
+             "(C04_one_char_optimum_ascii: scan invariant over every haystack; the early exit is sound because no bonus exceeds max_bonus). Upper bound and the one-character optimum are also checked against a brute force over all alignments for small inputs; the lower bound is also an oracle of its own: "
              "implementation score >= the model's recurrence evaluated on the full matrix (every haystack column, no prefilter window) whenever the whole haystack fits the slab."),
     "C05": dict(
         technique="Lean 4 theorems (occurrence list, trimming helpers, exact_match_impl decision) + occurrence/anchoring oracle on the implementation",
